@@ -152,8 +152,73 @@ def lib():
         L.Dataset4dstem = ds.Dataset4dstem
         L.REG = {2: ds.Dataset2d, 3: ds.Dataset3d, 4: ds.Dataset4d}
         L.by_name = {c.__name__: c for c in (ds.Dataset, ds.Dataset2d, ds.Dataset3d, ds.Dataset4d, ds.Dataset4dstem)}
+        _define_user_classes(L, ds)
         _L = L
     return _L
+
+
+def _define_user_classes(L, ds):
+    """Harness-defined user classes (extension tier): classes to register later through the documented
+    Dataset.register_dimension, and user subclasses with an extra attribute + copy hook, a validating factory, a
+    property. Made importable as checks.C03.<name> so that pickle can find them."""
+
+    class Refused(ValueError):
+        """Raised by the validating factories below: 'the subclass hook refused'."""
+
+    class H1(ds.Dataset):
+        pass
+
+    class H2(ds.Dataset2d):
+        pass
+
+    class AttrImage(ds.Dataset2d):
+        def _copy_custom_attributes(self, new_dataset):
+            super()._copy_custom_attributes(new_dataset)
+            new_dataset.hook_runs = getattr(self, "hook_runs", 0) + 1
+
+    class SquareImage(ds.Dataset2d):
+        @classmethod
+        def from_array(cls, array, *a, **k):
+            sh = np.shape(array)
+            if len(sh) != 2 or sh[0] != sh[1]:
+                raise Refused(f"SquareImage needs a square 2-D array, got shape {sh}")
+            return super().from_array(array, *a, **k)
+
+    class SmallStack(ds.Dataset3d):
+        LIMIT = 60
+
+        @classmethod
+        def from_array(cls, array, *a, **k):
+            if np.size(array) > cls.LIMIT:
+                raise Refused(f"SmallStack holds at most {cls.LIMIT} elements, got {np.size(array)}")
+            return super().from_array(array, *a, **k)
+
+    class PropImage(ds.Dataset2d):
+        @property
+        def fov(self):
+            return tuple(float(n * s) for n, s in zip(self.shape, self.sampling))
+
+        @property
+        def label(self):
+            return getattr(self, "_label", None)
+
+        @label.setter
+        def label(self, v):
+            self._label = str(v)
+
+    for c in (Refused, H1, H2, AttrImage, SquareImage, SmallStack, PropImage):
+        c.__module__, c.__qualname__ = __name__, c.__name__
+        globals()[c.__name__] = c
+        setattr(L, c.__name__, c)
+        if c is not Refused:
+            L.by_name[c.__name__] = c
+
+
+MODEL_REG = None  # the model's registry (ndim -> class) while the extension tier explores registration events
+
+
+def model_registry():
+    return MODEL_REG if MODEL_REG is not None else lib().REG
 
 
 def registry_snapshot():
@@ -825,7 +890,7 @@ def model_getitem(m, index):
     o = np.array([m.o[ax] for ax in kept], dtype=float)
     s = np.array([m.s[ax] * (t[ax].step if isinstance(t[ax], slice) and t[ax].step is not None else 1) for ax in kept], dtype=float)
     u = [m.u[ax] for ax in kept]
-    cls = m.cls if a.ndim == n else lib().REG.get(a.ndim, lib().Dataset)
+    cls = m.cls if a.ndim == n else model_registry().get(a.ndim, lib().Dataset)  # registered AT THE TIME OF THE CALL
     return [M(a, o, s, u, cls)]
 
 
@@ -895,7 +960,7 @@ def invariants(d):
     except Exception as e:
         out.append(("access", f"public attributes not readable: {e!r}"))
         return out
-    for k, C in L.REG.items():
+    for k, C in model_registry().items():
         if isinstance(d, C) and n != k:
             out.append(("class", f"{type(d).__name__} (registered for {k} dimensions) holds a {n}-dimensional array"))
     return out
@@ -1051,15 +1116,43 @@ def execute(live, snap, fp, ev, mode, fails, st):
                 return False
         return True
 
+    def refused(e, what, obj=None):
+        """The user subclass hook refused (extension tier): not a failure, but nothing may have changed."""
+        if not isinstance(e, L.Refused):
+            return False
+        st["refused_by_subclass_hook"] += 1
+        if obj is not None and fingerprint(obj) != fp:
+            bad("refused_leaves_object_untouched", what, f"{what} was refused by the subclass ({e}) but changed the object: {describe(obj)}")
+        return True
+
+    def custom(res, what, copied):
+        """Documented copy semantics of custom attributes: copied by .copy() when they have one, else assigned."""
+        for name in ("labels", "gain", "_label"):
+            if name in vars(live):
+                a_, b_ = vars(live)[name], vars(res).get(name, "<missing>")
+                if a_ != b_:
+                    bad("custom_attributes_follow_copy", name, f"{what}: custom attribute {name} is {b_!r}, the source has {a_!r}")
+                    return False
+                if copied and isinstance(a_, list) and a_ is b_:
+                    bad("custom_attributes_follow_copy", name + ":aliased", f"{what}: custom attribute {name} (has .copy) is the same object as the source's")
+                    return False
+        if copied and "hook_runs" in vars(live) and vars(res).get("hook_runs", -1) <= vars(live)["hook_runs"]:
+            bad("custom_attributes_follow_copy", "hook", f"{what}: the subclass _copy_custom_attributes hook did not run")
+            return False
+        return True
+
     # ---- copy
     if kind == "copy":
         try:
             r = live.copy()
         except Exception as e:
+            if refused(e, "copy"):
+                dirty = not source_ok("refused copy")
+                return None, ("fail" if dirty or len(fails) != nfail0 else "loop"), 1, dirty
             bad("unexpected_exception", "-", f"raised {e!r}")
             return None, "fail", 1, not source_ok("copy")
         dirty = not source_ok("copy")
-        ok = judge(r, [snap], True, "copy")
+        ok = judge(r, [snap], True, "copy") and custom(r, "copy", True)
         return (r, "ok", 1, dirty) if ok and not dirty else (None, "fail", 1, dirty)
 
     # ---- setters (in place by nature; executed on a deep copy so that the state itself stays intact)
@@ -1105,6 +1198,8 @@ def execute(live, snap, fp, ev, mode, fails, st):
             elif not isinstance(lib_exc, type(np_exc)):
                 bad("rejected_index_exception_class", "-", f"NumPy raises {type(np_exc).__name__}, the library raised {lib_exc!r}")
             return None, ("loop" if len(fails) == nfail0 else "fail"), 1, dirty
+        if lib_exc is not None and refused(lib_exc, "indexing"):
+            return None, ("fail" if dirty or len(fails) != nfail0 else "loop"), 1, dirty
         if lib_exc is not None:
             bad("legal_index_raised", type(lib_exc).__name__, f"NumPy accepts the expression (result shape {snap.a[index_of(ev)].shape}), the library raised {lib_exc!r}")
             return None, "fail", 1, dirty
@@ -1145,21 +1240,25 @@ def execute(live, snap, fp, ev, mode, fails, st):
         try:
             r = getattr(live, meth)(modify_in_place=False, **args)
         except Exception as e:
-            bad("unexpected_exception", "copying", f"copying variant raised {e!r}")
+            if not refused(e, f"copying {meth}"):
+                bad("unexpected_exception", "copying", f"copying variant raised {e!r}")
         dirty = not source_ok(f"copying {meth}")
         if r is not None:
             try:
                 cands = model_for(r)
-                r_ok = judge(r, cands, exact, f"copying {meth}")
+                r_ok = judge(r, cands, exact, f"copying {meth}") and custom(r, f"copying {meth}", True)
             except ModelMismatch as e:
                 bad("result_equals_model", "shape", f"copying {meth}: {e}")
-    if variant in ("both", "ip"):
+    if variant in ("both", "ip") and not dirty:
         nexec += 1
         X = copy.deepcopy(live)
         try:
             getattr(X, meth)(modify_in_place=True, **args)
         except Exception as e:
-            bad("unexpected_exception", "in_place", f"in-place variant raised {e!r}")
+            if not refused(e, f"in-place {meth}", X):
+                bad("unexpected_exception", "in_place", f"in-place variant raised {e!r}")
+            X = None
+        if X is not None and not custom(X, f"in-place {meth}", False):
             X = None
         if X is not None:
             if variant == "both" and r is not None:
@@ -1187,7 +1286,9 @@ def execute(live, snap, fp, ev, mode, fails, st):
                     bad("result_equals_model", "shape", f"in-place {meth}: {e}")
     if len(fails) != nfail0 or dirty:
         return None, "fail", nexec, dirty
-    succ = X if variant == "ip" else r
+    succ = X if (variant == "ip" or r is None) else r  # copying variant refused by the subclass: the in-place result is the successor
+    if succ is None:
+        return None, "loop", nexec, dirty
     return succ, "ok", nexec, dirty
 
 
@@ -1317,9 +1418,9 @@ def tier_config(tier):
     if tier == "quick":
         # depth 3 for ndim 3 costs another 1.0M transitions (170 CPU-s): measured not to fit the 60 s budget on the shared machine
         return {"maxdepth": {1: 3, 2: 3, 3: 2, 4: 2, 5: 2}, "dfull": {1: 1, 2: 1, 3: 1, 4: 0, 5: 0}, "dwide": {1: 1, 2: 1, 3: 1, 4: 0, 5: 0},
-                "dspell": {1: 1, 2: 1, 3: 1, 4: 0, 5: 0}}
+                "dspell": {1: 1, 2: 1, 3: 1, 4: 0, 5: 0}, "ext_depth": 3, "ext_dtwin": 1}
     return {"maxdepth": {1: 3, 2: 3, 3: 3, 4: 3, 5: 3}, "dfull": {1: 2, 2: 2, 3: 2, 4: 1, 5: 0}, "dwide": {1: 2, 2: 2, 3: 1, 4: 1, 5: 1},
-            "dspell": {1: 2, 2: 2, 3: 1, 4: 1, 5: 1}}
+            "dspell": {1: 2, 2: 2, 3: 1, 4: 1, 5: 1}, "ext_depth": 4, "ext_dtwin": 2}
 
 
 FULL_CHUNK = 1500
@@ -1414,14 +1515,17 @@ def bfs_below(sh, start, start_fp, hist, depth, cfg, st):
 def shard(item, seed=0, cfg=None, scratch=None):
     warnings.simplefilter("ignore")
     kind, init_i = item[0], item[1]
-    sh = Shard(init_i)
+    sh = Shard(0 if kind == "ext" else init_i)
     st = sh.t.extra
     reg = registry_snapshot()
     DEV.single = DEV.double = DEV.cal = 0.0
     try:
-        live0 = make_init(init_i, seed)
-        fp0 = fingerprint(live0)
-        sh.seen.add(canon_of(fp0))
+        if kind == "ext":
+            live0 = fp0 = None
+        else:
+            live0 = make_init(init_i, seed)
+            fp0 = fingerprint(live0)
+            sh.seen.add(canon_of(fp0))
         nd = sh.nd0
         if kind == "full":
             lo, hi = item[2], item[3]
@@ -1440,6 +1544,8 @@ def shard(item, seed=0, cfg=None, scratch=None):
                 sh.seen.add(canon_of(fps))
                 bfs_below(sh, succ, fps, [ev], 1, cfg, st)
             sh.save(scratch, f"bfs_{init_i}_{item[2]}")
+        elif kind == "ext":
+            ext_shard(sh, item[1], seed, cfg["ext_depth"], cfg["ext_dtwin"], st)
         elif kind in ("dev", "dev0"):
             run_dev(sh, item, seed, st)
             sh.seen.clear()  # deep histories are not part of the BFS state count
@@ -1450,6 +1556,283 @@ def shard(item, seed=0, cfg=None, scratch=None):
         if registry_restore(reg):
             sh.t.fail({"relation": "registry_unchanged", "op": "-", "field": "-"}, {"init": init_i, "history": []}, "Dataset._registry was modified by the explored operations")
     return sh.t
+
+
+# ----------------------------------------------------------------------------- extension tier
+# Histories with (a) REGISTRATION events - Dataset.register_dimension(n) of a harness class for a dimensionality
+# without a class (1) and a replacement for 2 - interleaved with copying / in-place operations and indexing; the
+# model: the class of every result is the class registered for its dimensionality AT THE TIME OF THE CALL, whatever
+# the history of the object (fresh, copy-born, in-place-born); (b) USER SUBCLASSES as initial states (extra attributes
+# + copy hook, validating factories that refuse some results, a property): a refusal must leave the source (or the
+# object of an in-place call) bit-identical and usable, custom attributes follow the documented copy semantics;
+# (c) TWINS made by copy.copy / copy.deepcopy / pickle / .copy(): equal to the original, behave like it, and in-place
+# operations on one never change the other. Dataset._registry is owned like module state: set per state, restored
+# after every shard / history. State = (live dataset, registry, custom attribute values).
+EXT_INITIALS = {
+    "Dataset2d": ("Dataset2d", (3, 4), "float32"),
+    "Dataset": ("Dataset", (2, 3, 4), "int16"),
+    "Dataset3d": ("Dataset3d", (2, 3, 4), "complex64"),
+    "AttrImage": ("AttrImage", (3, 4), "float32"),
+    "SquareImage": ("SquareImage", (4, 4), "int16"),
+    "SmallStack": ("SmallStack", (2, 3, 4), "float32"),
+    "PropImage": ("PropImage", (3, 4), "complex64"),
+}
+REG_EVENTS = [("reg", 1, "H1"), ("reg", 2, "H2")]
+TWIN_KINDS = ("copy.copy", "copy.deepcopy", "pickle", ".copy()")
+TWIN_INPLACE = [("pad", "w1"), ("crop", "ax0_first"), ("bin", "2_last"), ("fr", "plus1"), ("set", "origin", "scalar"), ("set", "units", "list")]
+TWIN_FOLLOW = [("copy",), ("idx", "0"), ("idx", "::2"), ("crop", "ax0_first")]
+
+
+def ext_alphabet(n):
+    ev = [("copy",), ("set", "origin", "scalar"), ("pad", "w1"), ("crop", "ax0_first"), ("crop", "all_first"), ("bin", "2_last"), ("fr", "plus1")]
+    ev += [("idx",) + c for c in (("0",), ("1:",), ("::2",), ("...", "0"), ("0", "0"), (":", "1:")) if _valid_index(c, n)]
+    return ev
+
+
+def make_ext_init(name, seed):
+    cn, shape, dt = EXT_INITIALS[name]
+    rng = np.random.default_rng([int(seed), 3, 1000 + sorted(EXT_INITIALS).index(name)])
+    if dt == "int16":
+        a = (rng.permutation(int(np.prod(shape))) - 5).astype(np.int16).reshape(shape)
+    elif dt == "float32":
+        a = rng.standard_normal(shape).astype(np.float32)
+    else:
+        a = (rng.standard_normal(shape) + 1j * rng.standard_normal(shape)).astype(np.complex64)
+    n = len(shape)
+    d = lib().by_name[cn].from_array(a, name="x", origin=list(ORI[:n]), sampling=list(SAM[:n]), units=list(UNI[:n]))
+    if cn == "AttrImage":
+        d.labels, d.gain, d.hook_runs = ["left", "right"], 1.5, 0
+    if cn == "PropImage":
+        d.label = "sample-1"
+    return d
+
+
+def set_registry(reg):
+    """Own the module-level registry: make it (and the model's) exactly `reg`."""
+    global MODEL_REG
+    real = lib().Dataset._registry
+    real.clear()
+    real.update(reg)
+    MODEL_REG = dict(reg)
+
+
+def reg_sig(reg):
+    return tuple(sorted((k, c.__name__) for k, c in reg.items()))
+
+
+def ext_canon(fpv, reg, live, born):
+    """`born` = (how the object came to be: fresh / copy / index, registry at that moment): objects that look the same
+    but were made before / after a registration, or by a copying operation instead of a constructor, are different
+    states (harness-side lineage, nothing read from the library) - otherwise dedup would hide exactly those."""
+    custom = [(k, repr(vars(live)[k])) for k in ("labels", "gain", "_label") if k in vars(live)]
+    return canon_of(fpv) + canon_of((reg_sig(reg), tuple(custom), born))
+
+
+def make_twin(kind, d):
+    import pickle
+
+    if kind == "copy.copy":
+        return copy.copy(d)
+    if kind == "copy.deepcopy":
+        return copy.deepcopy(d)
+    if kind == "pickle":
+        return pickle.loads(pickle.dumps(d))
+    return d.copy()
+
+
+def _apply_inplace(d, ev):
+    if ev[0] == "set":
+        setattr(d, ev[1], SET_VALUES[(ev[1], ev[2])](d.array.ndim))
+    else:
+        getattr(d, METHOD[ev[0]])(modify_in_place=True, **concrete_args(ev, d.array.shape))
+
+
+def _apply_copying(d, ev):
+    if ev[0] == "copy":
+        return d.copy()
+    if ev[0] == "idx":
+        return d[index_of(ev)]
+    return getattr(d, METHOD[ev[0]])(modify_in_place=False, **concrete_args(ev, d.array.shape))
+
+
+def execute_twin(live, snap, fp, ev, fails, st):
+    """("twin", kind): leaf event. Returns the number of executions."""
+    kind = ev[1]
+    L = lib()
+    nexec = 0
+    n = snap.a.ndim
+
+    def bad(rel, field, msg):
+        fails.append(({"relation": rel, "op": "twin", "field": field, "kind": kind}, f"{describe_m(snap)} . twin by {kind}: {msg}"))
+
+    def twin_of(d):
+        try:
+            return make_twin(kind, d), None
+        except Exception as e:
+            return None, e
+
+    T, exc = twin_of(live)
+    nexec += 1
+    if fingerprint(live) != fp:
+        bad("source_bit_identical", "twin", f"making the twin changed the original: {describe(live)}")
+        return nexec, True
+    if exc is not None:
+        if isinstance(exc, L.Refused):
+            st["refused_by_subclass_hook"] += 1
+            return nexec, False
+        bad("twin_equals_original", "raised", f"raised {exc!r}")
+        return nexec, False
+    if fingerprint(T) != fp:
+        bad("twin_equals_original", fp_diff(fp, fingerprint(T)), f"twin is {describe(T)}")
+        return nexec, False
+    for name in ("labels", "gain", "_label"):
+        if name in vars(live) and vars(T).get(name, "<missing>") != vars(live)[name]:
+            bad("twin_equals_original", name, f"custom attribute {name} is {vars(T).get(name, '<missing>')!r}, original has {vars(live)[name]!r}")
+    # used further: the twin behaves exactly like the original
+    for f in TWIN_FOLLOW:
+        if not applicable(f, n) or (f[0] == "idx" and not _valid_index(f[1:], n)):
+            continue
+        outs = []
+        for d in (live, T):
+            try:
+                outs.append((_apply_copying(d, f), None))
+            except Exception as e:
+                outs.append((None, e))
+        nexec += 1
+        (r0, e0), (r1, e1) = outs
+        if fingerprint(live) != fp:
+            bad("source_bit_identical", call_text(f, snap.a.shape), "the follow-up operation changed the original")
+            return nexec, True
+        if (e0 is None) != (e1 is None):
+            bad("twin_behaves_like_original", call_text(f, snap.a.shape), f"{call_text(f, snap.a.shape)}: original gives {describe(r0) if e0 is None else repr(e0)}, twin gives {describe(r1) if e1 is None else repr(e1)}")
+        elif e0 is None:
+            diff = result_diff(r0, r1)
+            if diff:
+                bad("twin_behaves_like_original", call_text(f, snap.a.shape), f"{call_text(f, snap.a.shape)}: original gives {describe(r0)}, twin gives {describe(r1)} ({', '.join(diff)} differ)")
+    # in-place operations on one never change the other
+    for op in TWIN_INPLACE:
+        ref = copy.deepcopy(live)
+        try:
+            _apply_inplace(ref, op)
+        except Exception:
+            continue  # judged by the ordinary alphabet
+        for mutate_twin in (True, False):
+            A = copy.deepcopy(live)
+            T2, exc = twin_of(A)
+            if exc is not None:
+                continue
+            nexec += 1
+            changed, other = (T2, A) if mutate_twin else (A, T2)
+            try:
+                _apply_inplace(changed, op)
+            except Exception as e:
+                bad("twin_behaves_like_original", call_text(op, snap.a.shape), f"in-place {call_text(op, snap.a.shape)} on the {'twin' if mutate_twin else 'original'} raised {e!r}")
+                continue
+            if fingerprint(other) != fp:
+                bad("twin_isolated_from_original", call_text(op, snap.a.shape), f"in-place {call_text(op, snap.a.shape)} on the {'twin' if mutate_twin else 'original'} changed the {'original' if mutate_twin else 'twin'}: {describe(other)} ({fp_diff(fp, fingerprint(other))} differ)")
+            diff = result_diff(changed, ref)
+            if diff:
+                bad("twin_behaves_like_original", call_text(op, snap.a.shape), f"in-place {call_text(op, snap.a.shape)} on the {'twin' if mutate_twin else 'original'} gives {describe(changed)}, on an independent object {describe(ref)}")
+    return nexec, False
+
+
+def ext_step(live, snap, fp, reg, ev, fails, st):
+    """One event of the extension tier in the state (live, reg). Returns (successor live | None, successor registry,
+    status, n_executions, dirty). The module registry is `reg` on entry and on exit."""
+    L = lib()
+    if ev[0] == "reg":
+        n, cls = ev[1], L.by_name[ev[2]]
+        L.Dataset.register_dimension(n)(cls)  # the documented hook
+        now = dict(L.Dataset._registry)
+        set_registry(reg)
+        want = dict(reg)
+        want[n] = cls
+        if now != want:
+            fails.append(({"relation": "registration_takes_effect", "op": "reg", "field": str(n)}, f"register_dimension({n})({cls.__name__}): registry is {now}, expected {want}"))
+            return None, reg, "fail", 1, False
+        if fingerprint(live) != fp:
+            fails.append(({"relation": "source_bit_identical", "op": "reg", "field": "-"}, "a registration changed an existing dataset"))
+            return None, reg, "fail", 1, True
+        return live, want, ("ok" if want != reg else "loop"), 1, False
+    if ev[0] == "twin":
+        nexec, dirty = execute_twin(live, snap, fp, ev, fails, st)
+        set_registry(reg)
+        return None, reg, ("fail" if fails else "same"), nexec, dirty
+    succ, status, nexec, dirty = execute(live, snap, fp, ev, "both", fails, st)
+    if dict(L.Dataset._registry) != reg:
+        fails.append(({"relation": "registry_unchanged", "op": ev[0], "field": "-"}, f"{call_text(ev, snap.a.shape)} changed Dataset._registry"))
+        set_registry(reg)
+    return succ, reg, status, nexec, dirty
+
+
+def ext_shard(sh, name, seed, depth, dtwin, st):
+    global MODEL_REG
+    L = lib()
+    reg0 = registry_snapshot()
+    try:
+        live0 = make_ext_init(name, seed)
+        for f, msg in invariants(live0):
+            sh.t.fail({"relation": "one_entry_per_axis", "op": "init", "field": f}, {"init": "ext:" + name, "history": []}, msg)
+        fp0 = fingerprint(live0)
+        born0 = ("fresh", reg_sig(reg0))
+        seen = {ext_canon(fp0, reg0, live0, born0)}
+        frontier = [(live0, fp0, dict(reg0), [], born0)]
+        for d in range(depth):
+            nxt = []
+            for live, fp, reg, hist, born in frontier:
+                set_registry(reg)
+                if fingerprint(live) != fp:
+                    st["states_skipped_changed_after_creation"] += 1
+                    continue
+                snap = snapshot(live)
+                nd = snap.a.ndim
+                events = [e for e in REG_EVENTS] + ext_alphabet(nd) + ([("twin", k) for k in TWIN_KINDS] if d <= dtwin else [])
+                for ev in events:
+                    fails = []
+                    succ, reg2, status, nexec, dirty = ext_step(live, snap, fp, reg, ev, fails, st)
+                    sh.t.n += nexec
+                    st["ext_transitions"] += nexec
+                    sh.out.add(("ext", ev[0], status, type(succ).__name__ if succ is not None else None))
+                    for cls, msg in fails:
+                        sh.t.fail(cls, {"init": "ext:" + name, "initial": list(map(str, EXT_INITIALS[name])), "history": [list(e) for e in hist + [ev]]}, msg)
+                    if dirty:
+                        live = rebuild_like(live, snap)
+                        fp = fingerprint(live)
+                    if status != "ok":
+                        continue
+                    if ev[0] == "idx" and type(succ) in (L.H1, L.H2):
+                        st["ext_results_of_a_class_registered_later"] += 1
+                    fps = fingerprint(succ)
+                    born2 = born if ev[0] in ("reg", "set") else (("index" if ev[0] == "idx" else "copy"), reg_sig(reg))
+                    k = ext_canon(fps, reg2, succ, born2)
+                    if k in seen:
+                        continue
+                    seen.add(k)
+                    st["ext_states"] += 1
+                    if succ.array.size and d + 1 < depth:
+                        nxt.append((succ, fps, reg2, hist + [ev], born2))
+            frontier = nxt
+        st["ext_states"] += 1
+    finally:
+        MODEL_REG = None
+        real = getattr(L.Dataset, "_registry", None)
+        if isinstance(real, dict) and reg0 is not None:
+            real.clear()
+            real.update(reg0)
+    sh.flush_outcomes()
+
+
+def rebuild_like(live, snap):
+    """A fresh object equal to the snapshot, keeping the custom attributes (after a detected source modification)."""
+    try:
+        d = rebuild(snap)
+    except Exception:  # a validating factory refuses the snapshot shape: fall back to a deep copy with the old array
+        d = copy.deepcopy(live)
+        d._array = snap.a.copy()
+    for k in ("labels", "gain", "_label", "hook_runs"):
+        if k in vars(live):
+            setattr(d, k, copy.deepcopy(vars(live)[k]))
+    return d
 
 
 # ----------------------------------------------------------------------------- deviation-bounded deep histories
@@ -1567,34 +1950,50 @@ def dev_initials():
 
 # ----------------------------------------------------------------------------- driver
 def run_history(init_i, seed, hist, fails_out, verbose=False):
-    """Re-execute one history with all checks at every step (self-test and replay)."""
-    live = make_init(init_i, seed)
-    inv = invariants(live)
-    for f, msg in inv:
-        fails_out.append(({"relation": "one_entry_per_axis", "op": "init", "field": f}, msg))
-    trace = [canon_of(fingerprint(live)).hex()]
-    st = Tally().extra
-    for i, ev in enumerate(hist):
-        ev = tuple(ev)
-        if not applicable(ev, live.array.ndim):
+    """Re-execute one history with all checks at every step (self-test and replay). Owns Dataset._registry."""
+    global MODEL_REG
+    ext = isinstance(init_i, str) and init_i.startswith("ext:")
+    reg0 = registry_snapshot()
+    try:
+        live = make_ext_init(init_i[4:], seed) if ext else make_init(int(init_i), seed)
+        reg = dict(reg0) if (ext and reg0 is not None) else None
+        for f, msg in invariants(live):
+            fails_out.append(({"relation": "one_entry_per_axis", "op": "init", "field": f}, msg))
+        trace = [canon_of(fingerprint(live)).hex()]
+        st = Tally().extra
+        for i, ev in enumerate(hist):
+            ev = tuple(ev)
+            if not applicable(ev, live.array.ndim):
+                if verbose:
+                    print(f"  step {i + 1}: {list(ev)} not applicable to a {live.array.ndim}-dimensional state, skipped")
+                continue
+            snap, fp = snapshot(live), fingerprint(live)
+            mode = "path" if ev[0] in METHOD and ev[-1] in ("cp", "ip") else "both"
+            fails = []
+            _CANON.clear()
+            if reg is not None:
+                set_registry(reg)
+                succ, reg, status, _, _ = ext_step(live, snap, fp, reg, ev, fails, st)
+            else:
+                succ, status, _, _ = execute(live, snap, fp, ev, mode, fails, st)
+            fails_out.extend(fails)
             if verbose:
-                print(f"  step {i + 1}: {list(ev)} not applicable to a {live.array.ndim}-dimensional state, skipped")
-            continue
-        snap, fp = snapshot(live), fingerprint(live)
-        mode = "path" if ev[0] in METHOD and ev[-1] in ("cp", "ip") else "both"
-        fails = []
-        succ, status, _, _ = execute(live, snap, fp, ev, mode, fails, st)
-        fails_out.extend(fails)
-        if verbose:
-            print(f"  step {i + 1}: {call_text(ev, snap.a.shape)} [{mode if mode == 'both' else ev[-1]}] -> {status}: {describe(succ) if succ is not None else describe(live)}")
-        if status == "fail":
-            break
-        if status == "ok":
-            live = succ
-        trace.append(canon_of(fingerprint(live)).hex())
-        if live.array.size == 0:
-            break
-    return trace, live
+                text = list(ev) if ev[0] in ("reg", "twin") else call_text(ev, snap.a.shape)
+                print(f"  step {i + 1}: {text} [{mode if mode == 'both' else ev[-1]}] -> {status}: {describe(succ) if succ is not None else describe(live)}")
+            if status == "fail":
+                break
+            if status == "ok":
+                live = succ
+            trace.append(canon_of(fingerprint(live)).hex())
+            if live.array.size == 0:
+                break
+        return trace, live
+    finally:
+        MODEL_REG = None
+        real = getattr(lib().Dataset, "_registry", None)
+        if isinstance(real, dict) and reg0 is not None:
+            real.clear()
+            real.update(reg0)
 
 
 def run(ctx):
@@ -1618,6 +2017,9 @@ def run(ctx):
         (INITIALS.index(("Dataset", (2, 2, 3, 2, 2), "complex64")), [("idx", "0", ":", "L"), ("bin", "2_last"), ("fr", "half_last")]),
     ]
 
+    if reg0 is not None:
+        written.append(("ext:SquareImage", [("copy",), ("reg", 1, "H1"), ("crop", "ax0_first"), ("idx", "0"), ("twin", "pickle")]))
+
     def once():
         out = []
         for i, h in written:
@@ -1628,7 +2030,7 @@ def run(ctx):
 
     ctx.selftest(once)
     for (i, h), (trace, msgs, final) in zip(written, once()):
-        ctx.sample({"initial": list(map(str, INITIALS[i])), "history": [call_text(e, ()) if e[0] in ("idx", "copy") else list(e) for e in h],
+        ctx.sample({"initial": list(map(str, EXT_INITIALS[i[4:]] if isinstance(i, str) else INITIALS[i])), "history": [call_text(e, ()) if e[0] in ("idx", "copy") else list(e) for e in h],
                     "states_visited": len(trace), "reached": final, "failures": msgs})
 
     # depth 1 in the parent: judged here, deduplicated, one shard per distinct successor
@@ -1667,6 +2069,8 @@ def run(ctx):
     ctx.say(f"{len(items)} shards (distinct depth-1 successors + root chunks of A_full), bounds {json.dumps(cfg)}")
     # heavy shards first (scheduling only; the result does not depend on the order)
     items.sort(key=lambda it: (it[0] != "bfs", -cfg["maxdepth"][len(INITIALS[it[1]][1])], -len(INITIALS[it[1]][1]), it[1], it[2] if len(it) > 2 else -1))
+    if reg0 is not None:
+        items = [("ext", name) for name in EXT_INITIALS] + items  # extension tier: one shard per initial, started first
     # preliminary counts (depth 1 only), overwritten below; keeps partial evidence valid if the ceiling is hit
     n1 = sum(len(v) for v in root_digests.values())
     ctx.coverage.update(states=n1, transitions=parent.n, traces_validated_against_impl=parent.n, distinct_nontrivial=n1 - len(INITIALS), evaluations=parent.n)
@@ -1683,6 +2087,7 @@ def run(ctx):
 
 
 def _explore(ctx, cfg, items, parent, parent_dev, root_digests, sizes, side):
+    reg0_present = registry_snapshot() is not None
     from collections import Counter
 
     merged = ctx.pmap(shard, items, chunk=1, label="bfs", seed=ctx.seed, cfg=cfg, scratch=side)
@@ -1733,7 +2138,7 @@ def _explore(ctx, cfg, items, parent, parent_dev, root_digests, sizes, side):
         u = np.unique(np.concatenate(parts))
         per_nd_states[n] = int(len(u))
         all_states.append(u)
-    states = int(len(np.unique(np.concatenate(all_states))))
+    states = int(len(np.unique(np.concatenate(all_states)))) + int(extra.get("ext_states", 0))
 
     spellings = {}
     for k in sorted(extra):
@@ -1742,7 +2147,8 @@ def _explore(ctx, cfg, items, parent, parent_dev, root_digests, sizes, side):
             spellings.setdefault(k[10:], {"accepted_and_identical_to_canonical": 0, "rejected_while_canonical_is_accepted": 0, "both_spellings_raise": 0})[what] += int(extra[k])
             ctx.tally.extra.pop(k, None)  # reported as one map instead of ~100 counters
     ctx.coverage["spellings"] = spellings
-    transitions = sum(int(v) for k, v in extra.items() if k.startswith("tr_nd"))
+    ext_tr, ext_states = int(extra.get("ext_transitions", 0)), int(extra.get("ext_states", 0))
+    transitions = sum(int(v) for k, v in extra.items() if k.startswith("tr_nd")) + ext_tr
     dev_steps = int(extra.get("dev_steps", 0))
     per_ndim = {}
     for n in range(1, 6):
@@ -1764,6 +2170,11 @@ def _explore(ctx, cfg, items, parent, parent_dev, root_digests, sizes, side):
         per_ndim=per_ndim,
         alphabet={"per_axis_index_forms": FORMS, "non_indexing": [list(e) for e in nonindex_alphabet(5)], "wide_arguments_ndim3": [list(e) for e in wide_alphabet(3)],
                   "reduced_index_set_ndim3": [call_text(e, ()) for e in reduced_index_alphabet(3)]},
+        extension_tier={"initials": {k: list(map(str, v)) for k, v in EXT_INITIALS.items()}, "registration_events": [list(e) for e in REG_EVENTS],
+                        "alphabet_ndim3": [list(e) for e in ext_alphabet(3)], "twin_kinds": list(TWIN_KINDS), "depth": cfg["ext_depth"],
+                        "twins_in_states_up_to_depth": cfg["ext_dtwin"], "states": ext_states, "transitions": ext_tr,
+                        "refused_by_subclass_hook": int(extra.get("refused_by_subclass_hook", 0)),
+                        "index_results_of_a_class_registered_later": int(extra.get("ext_results_of_a_class_registered_later", 0))},
         bounds=cfg,
         worst_deviation={"single_precision_data": worst[0], "double_precision_data": worst[1], "calibration": worst[2],
                          "tolerances": {"single": TOL_SINGLE, "double": TOL_DOUBLE, "calibration": TOL_CAL}},
@@ -1777,6 +2188,8 @@ def _explore(ctx, cfg, items, parent, parent_dev, root_digests, sizes, side):
     # vacuity guards
     if sum(v["accepted_and_identical_to_canonical"] for v in spellings.values()) < 1000 and not ctx.tally.nfails:
         raise Broken("degenerate enumeration: fewer than 1000 alternative spellings were accepted and compared")
+    if reg0_present and not ctx.tally.nfails and (extra.get("refused_by_subclass_hook", 0) < 20 or extra.get("ext_results_of_a_class_registered_later", 0) < 20):
+        raise Broken("degenerate extension tier: too few refusals by the subclass hooks / results of classes registered later")
     need = {"index_dropped_axis": 100, "index_changed_class": 50, "index_rejected_by_numpy": 100, "inplace_vs_copying_compared": 500, "setter_rejections": 50}
     for k, lo in need.items():
         if extra.get(k, 0) < lo and not ctx.tally.nfails:
@@ -1787,8 +2200,9 @@ def _explore(ctx, cfg, items, parent, parent_dev, root_digests, sizes, side):
 
 def replay(ctx, case):
     fails = []
-    i = int(case["init"])
-    print(f"  initial {INITIALS[i]} (seed {ctx.seed}); history of {len(case['history'])} events:")
+    i = case["init"]
+    i = i if isinstance(i, str) and i.startswith("ext:") else int(i)
+    print(f"  initial {EXT_INITIALS[i[4:]] if isinstance(i, str) else INITIALS[i]} (seed {ctx.seed}); history of {len(case['history'])} events:")
     _, live = run_history(i, ctx.seed, case["history"], fails, verbose=True)
     for cls, msg in fails:
         ctx.fail(cls, case, msg)
